@@ -190,12 +190,13 @@ class DampedOscillationMegacomplex(Megacomplex):
 
 @nb.jit(nopython=True, parallel=True)
 def calculate_damped_oscillation_matrix_no_irf(matrix, frequencies, rates, axis):
+    # columns are ordered like the clp labels: all cosine parts first, then all sine parts
     idx = 0
     for frequency, rate in zip(frequencies, rates):
         osc = np.exp(-rate * axis - 1j * frequency * axis)
         matrix[:, idx] = osc.real
-        matrix[:, idx + 1] = osc.imag
-        idx += 2
+        matrix[:, idx + frequencies.size] = osc.imag
+        idx += 1
 
 
 def calculate_damped_oscillation_matrix_gaussian_irf_on_index(
